@@ -6,9 +6,12 @@ open TomlVerif TomlVerif.Model.Containers
 
 namespace C16
 
+/-- an argument: a key `a`..`d` (0..3) or `k00`..`k99` (4..103), or a decimal number -/
 def tokNat (s : String) : Option Nat :=
   match s.toList with
-  | [c] => if 'a' ≤ c ∧ c ≤ 'z' then some (c.toNat - 97) else s.toNat?
+  | [c] => if 'a' ≤ c ∧ c ≤ 'd' then some (c.toNat - 97) else s.toNat?
+  | ['k', x, y] =>
+    if x.isDigit ∧ y.isDigit then some (4 + (x.toNat - 48) * 10 + (y.toNat - 48)) else none
   | _ => s.toNat?
 
 def parseOp (s : String) : Op :=
